@@ -15,7 +15,9 @@ func (*SkipCopy) Matches(ctx *MethodContext, source, target *xtype.Type) bool {
 	}
 	// the field settings of the method are written for its struct: it is
 	// converted field by field, the settings are not dropped.
-	if len(ctx.Conf.RawFieldSettings) > 0 && (ctx.FieldsTarget == target.String || ctx.Signature.Target == target.String) {
+	if len(ctx.Conf.RawFieldSettings) > 0 && (ctx.FieldsTarget == target.String || (!ctx.Conf.UpdateTarget && ctx.Signature.Target == target.String)) {
+		// (an update method is handed its pointer argument, it never converts
+		// a pointer of that type itself: such fields are taken over)
 		return false
 	}
 	return true
